@@ -45,6 +45,8 @@ def case_periodic(case):
     A = genhist.main_axes(ref)
     amp = float(np.sqrt(ref["var"]))
     r.true("field finite and not identically zero", bool(np.all(np.isfinite(base)) and np.ptp(base) > 1e-6 * amp), info=base[:3].tolist())
+    r.eq("generator.mode_no == requested (even) mode counts", [int(x) for x in np.atleast_1d(srf.generator.mode_no)], mode_no)
+    r.eq("number of modes == product of the mode counts", int(np.shape(srf.generator.modes)[1]), int(np.prod(mode_no)))
     half_same = 0
     for i in range(d):
         for mult in (1.0, -1.0, 2.0, -2.0):
@@ -61,7 +63,14 @@ def case_periodic(case):
     # combined shift along all axes
     tot = sum(period[i] * A[:, i] for i in range(d))
     r.close("f(x + sum_i period_i axis_i) == f(x)", np.array(srf(pos + tot[:, None]), dtype=float), base, rtol=1e-9, atol=1e-9 * amp * np.sqrt(np.prod(mode_no)))
-    # structured call periodic as well (unrotated only: grid axes = main axes)
+    # one model change (length scale only: period, mode counts and anisotropy stay): still periodic
+    srf.model.len_scale = 1.37 * ref["len_scale"]
+    base2 = np.array(srf(pos), dtype=float)
+    r.true("model change takes effect", not np.allclose(base2, base, rtol=1e-9, atol=1e-9 * amp), info=None)
+    for i in range(d):
+        sh = pos + (period[i] * A[:, i])[:, None]
+        r.close("after a model change: f(x + period_i * axis_i) == f(x)", np.array(srf(sh), dtype=float), base2, rtol=1e-9, atol=1e-9 * amp * np.sqrt(np.prod(mode_no)), axis=i)
+    r.eq("after a model change: generator.mode_no == requested", [int(x) for x in np.atleast_1d(srf.generator.mode_no)], mode_no)
     return r.done(outcome=[round(float(v), 9) for v in base[:3]], sub={"half_period_reproduces": half_same, "axes_checked": d})
 
 
@@ -74,10 +83,10 @@ def run(chk):
     models = ["Gaussian", "Exponential", "Matern"] + (["Spherical"] if tier != "quick" else [])
     cases = []
     for d in (1, 2, 3):
-        anis_opts = [[1.0, 1.0], [0.5, 0.75], [3.0, 0.5]] if d > 1 else [[1.0, 1.0]]
+        anis_opts = [[1.0, 1.0], [0.5, 0.75], [3.0, 0.5], [0.7, 0.9], [1.3, 0.3]] if d > 1 else [[1.0, 1.0]]
         ang_opts = [[0.0, 0.0, 0.0], [0.4 + g[0], -0.3, 0.2 * g[1]]] if d > 1 else [[0.0, 0.0, 0.0]]
-        per_opts = [1.0, 7.3, [10.0, 20.0, 5.0]]
-        mode_opts = [2, 8, [4, 8, 2]] if d < 3 else [2, [4, 8, 2]] + ([8] if tier != "quick" else [])
+        per_opts = [1.0, 7.3, [10.0, 20.0, 5.0], [40.0, 25.0, 10.0]]
+        mode_opts = [2, 8, [4, 8, 2], [8, 6, 4]] if d < 3 else [2, [4, 8, 2], [8, 6, 4]] + ([8] if tier != "quick" else [])
         for cls in models:
             for anis in anis_opts:
                 for ang in ang_opts:
